@@ -26,7 +26,7 @@ ASSUMPTIONS = ['15 s separates "finite" from "hung": no timeout inside the hands
 SHRINK = 'none'
 TIME_BUDGET = {'quick': 170, 'thorough': 1700}
 REQUIRED = {'quick': {'kind:faulty_server': 100, 'kind:child_dies': 40, 'kind:unknown_ctx': 4, 'kind:unsendable_work': 20, 'step:addr_msg': 50, 'step:info_msg': 12, 'server_killed_mid_request': 25},
-            'thorough': {'kind:faulty_server': 1000, 'kind:child_dies': 300}}
+            'thorough': {'kind:faulty_server': 350, 'kind:child_dies': 130}}
 LIMIT = 15.0
 
 
